@@ -1,4 +1,4 @@
-import AranyaV.Proofs.CompileCtl
+import AranyaV.Proofs.CompileStmt
 /-!
 C22: the code-at-pc simulation, by induction on the evaluator's fuel.
 -/
@@ -6,7 +6,7 @@ namespace AranyaV.Lang
 open AranyaV.Gen.Lang
 variable (S : Sim)
 
-theorem exprSim_succ {n : Nat} (ihE : ExprSim S n) (ihA : ArgsSim S n) : ExprSim S (n + 1) := by
+theorem exprSim_succ {n : Nat} (ihE : ExprSim S n) (ihA : ArgsSim S n) (ihSs : StmtsSim S n) : ExprSim S (n + 1) := by
   intro e env log wp c junk base fr K hsup hcode hdefs
   cases e with
   | unit =>
@@ -336,10 +336,18 @@ theorem exprSim_succ {n : Nat} (ihE : ExprSim S n) (ihA : ArgsSim S n) : ExprSim
   | coalesce a b => exact sim_coalesce S ihE a b env log wp c junk base fr K hsup hcode hdefs
   | ite cnd t f => exact sim_ite S ihE cnd t f env log wp c junk base fr K hsup hcode hdefs
   | call f args => exact sim_builtin S ihA f args env log wp c junk base fr K hsup hcode hdefs
+  | block ss e => exact sim_block S ihE ihSs ss e env log wp c junk base fr K hsup hcode hdefs
   | _ => simp [supE] at hsup
 
-theorem sim_all : ∀ n, ExprSim S n ∧ ArgsSim S n
+theorem sim_all : ∀ n, AllSim S n
   | 0 => sim_zero S
-  | n + 1 => ⟨exprSim_succ S (sim_all n).1 (sim_all n).2, argsSim_succ S (sim_all n).1 (sim_all n).2⟩
+  | n + 1 =>
+    let ih := sim_all n
+    { e := exprSim_succ S ih.e ih.a ih.ss
+      a := argsSim_succ S ih.e ih.a
+      ss := stmtsSim_succ S ih.s ih.ss
+      s := stmtSim_succ S ih.e ih.br
+      sc := scopedSim_succ S ih.ss
+      br := branchesSim_succ S ih.e ih.sc ih.br }
 
 end AranyaV.Lang
